@@ -370,8 +370,7 @@ func (c *Ctx) unreachableFromController(rule string, funcs []string, effects []s
 // after checking (allocation summary) that the versioned constructor returns a
 // freshly allocated pod in which neither field is ever stored.
 func (c *Ctx) freshPodFacts(r *Reconcile, cell ast.Expr, pos token.Pos) *gf.Formula {
-	okPhase := c.freshZero(r.Ctor, []string{"Status", "Phase"}, 0)
-	okDel := c.freshZero(r.Ctor, []string{"ObjectMeta", "DeletionTimestamp"}, 0)
+	okPhase, okDel := r.FreshOK, r.FreshOK
 	c.Check(okPhase && okDel, "C03.2-fresh-pod-is-uncreated", r.Ctor.Name()+" result", pos,
 		"the constructor returns a freshly allocated pod; no store to Status.Phase or DeletionTimestamp on any path (callee mod-sets included)",
 		"the constructor's result may carry a phase or a deletion timestamp: it is not provably a new, uncreated pod")
